@@ -801,8 +801,12 @@ def check_irregular(E, mm, st, model, dims, bs, rate, label, opts):
             E.check(b_and(ax.shape[0] == n, aget(ax, k) == a0 + k * stp), label + ': %s = range of numbers present with its own increment' % name)
         # tracefield grid with zeros at holes
         for f in (189, 193):
-            with Quiet():
-                g = r.get_tracefield_values(f)
+            try:
+                with Quiet():
+                    g = r.get_tracefield_values(f)
+            except Exception as e:
+                E.check(False, label + ': get_tracefield_values(%d) raised %s on the irregular file' % (f, type(e).__name__))
+                continue
             q = [E.fresh('g0', 0), E.fresh('g1', 0)]
             E.assume(b_and(q[0] < n_il, q[1] < n_xl))
             got = g.get(tuple(q)) if isinstance(g, LazyArr) else None
@@ -816,15 +820,18 @@ def check_irregular(E, mm, st, model, dims, bs, rate, label, opts):
     if part == 'traces':
         t = E.fresh('trace', 0)
         E.assume(t < model.tracecount)
-        with Quiet():
-            tr = r.get_trace(t)
+        try:
+            with Quiet():
+                tr = r.get_trace(t)
+                h = r.gen_trace_header(t)
+        except Exception as e:
+            E.check(False, label + ': get_trace / gen_trace_header of an existing trace raised %s' % type(e).__name__)
+            return
         z = E.fresh('z', 0)
         E.assume(b_and(z < n_s, z < tr.shape[0]))
         E.check(tr.shape[0] == n_s, label + ': trace length')
         gi, gx = model.il_x_of(t)
         expect_source_voxel(E, st, tr.get((z,)), (gi, gx, z), dims, label + ': trace i is the i-th source trace', zero_fill=zero_fill, model=model)
-        with Quiet():
-            h = r.gen_trace_header(t)
         for f in ((189, 193, 1) if opts.get('detection', 'heuristic') == 'heuristic' else (189, 193, 73, 1)):
             v = h[segyio.tracefield.TraceField(f)]
             E.check((not isinstance(v, tuple)) and (v == model.header_value(t, f)), label + ': header i is the i-th source header (field %d)' % f)
@@ -942,11 +949,11 @@ def items_for(prop, tier):
     items = []
     quick = tier == 'quick'
     lays = [((4, 4, 256), 8), ((4, 4, 1024), 2), ((4, 4, 8192), 0.25), ((64, 64, 4), 2), ((8, 8, 64), 8), ((4, 8, 128), 8),
-            ((16, 16, 16), 8), ((8, 4, 128), 8)] if quick else valid_layouts_3d()
+            ((16, 16, 16), 8), ((8, 4, 128), 8)] if quick else thorough_layouts_3d()[::2]
     for bs, rate in (lays if prop in ('C01', 'C03', 'C20') else []):
         if prop == 'C18':
             break
-        nbs = [(2, 2, 2)] if quick else [(1, 1, 1), (2, 2, 2), (3, 2, 1), (1, 3, 2)]
+        nbs = [(2, 2, 2)] if quick else [(2, 2, 2), (3, 1, 2)]
         if quick and not (bs[0] == 4 and bs[1] == 4):
             # general layouts put one block per compress call: two blocks along two axes, rotating which axis has one
             nbs = [(2, 2, 1)] if bs[2] == 4 else [(2, 1, 2), (1, 2, 2)]
@@ -961,7 +968,7 @@ def items_for(prop, tier):
                 if 'part' in opts:
                     desc += '|' + opts['part']
                 it = Item(desc, (lambda bs=bs, rate=rate, nb=nb, opts=opts: numpy_item(bs, rate, nb, {prop}, opts)),
-                          timeout_s=200 if quick else 1200, solver_ms=10000 if quick else 60000)
+                          timeout_s=200 if quick else 500, solver_ms=10000 if quick else 60000)
                 it.meta = dict(kind='numpy', bs=list(bs), rate=rate, nb=list(nb), opts={k: v for k, v in opts.items()}, prop=prop)
                 items.append(it)
     if prop in ('C01', 'C20', 'C09'):
@@ -978,7 +985,7 @@ def items_for(prop, tier):
                         continue
                     segy_cfgs.append(('regular', bs, rate, nb, o))
         lays2 = [((1, 16, 256), 8, (3, 2)), ((1, 4, 1024), 8, (3, 2)), ((1, 64, 64), 8, (2, 2))] if quick else \
-            [(l[0], l[1], nb) for l in valid_layouts_2d() for nb in ((2, 2), (3, 1), (1, 3)) if nb[1] * l[0][2] <= 2 ** 15]
+            [(l[0], l[1], nb) for l in thorough_layouts_2d()[::3] for nb in ((2, 2), (3, 1)) if nb[1] * l[0][2] <= 2 ** 15]
         for bs, rate, nb in lays2:
             for o in (dict(fmt=1), dict(fmt=5)) if not quick else (dict(fmt=1),):
                 if prop == 'C09':
@@ -991,7 +998,7 @@ def items_for(prop, tier):
             desc = 'segy-%s|%s|bs=%s|rate=%s|nb=%s|%s' % (kind, prop, 'x'.join(map(str, bs)), rate, 'x'.join(map(str, nb)),
                                                         ','.join('%s=%s' % kv for kv in sorted(o.items())))
             it = _I(desc, (lambda kind=kind, bs=bs, rate=rate, nb=nb, o=o: segy_item(kind, bs, rate, nb, {prop}, o)),
-                    timeout_s=200 if quick else 1200, solver_ms=10000 if quick else 60000)
+                    timeout_s=200 if quick else 500, solver_ms=10000 if quick else 60000)
             it.meta = dict(kind='segy-' + kind, bs=list(bs), rate=rate, nb=list(nb), opts=dict(o), prop=prop)
             items.append(it)
     if prop in ('C04', 'C05', 'C11'):
@@ -1026,7 +1033,7 @@ def items_for(prop, tier):
             desc = 'segy-%s|%s|bs=%s|rate=%s|nb=%s|%s' % (kind, prop, 'x'.join(map(str, bs)), rate, 'x'.join(map(str, nb)),
                                                         ','.join('%s=%s' % kv for kv in sorted(o.items())))
             it = _I(desc, (lambda kind=kind, bs=bs, rate=rate, nb=nb, o=o: segy_item(kind, bs, rate, nb, {prop}, o)),
-                    timeout_s=250 if quick else 1500, solver_ms=10000 if quick else 60000)
+                    timeout_s=250 if quick else 600, solver_ms=10000 if quick else 60000)
             it.meta = dict(kind='segy-' + kind, bs=list(bs), rate=rate, nb=list(nb), opts=dict(o), prop=prop)
             items.append(it)
         if prop in ('C04', 'C05'):
@@ -1034,14 +1041,14 @@ def items_for(prop, tier):
             ncfgs = []
             if prop == 'C04':
                 for dt in ('i2', 'i4', 'i8'):
-                    ncfgs.append(dict(headers=((73, dt), (21, 'i4'))))
+                    ncfgs.append(dict(headers=((73, dt), (21, 'i4'))))      # (dict given in non-ascending field order)
             else:
                 for steps in ((2, 3), (-1, 1)):
                     ncfgs.append(dict(axes='sym', il_step=steps[0], xl_step=steps[1]))
                 ncfgs.append(dict(samples='sym'))
             for o in ncfgs:
                 desc = 'numpy|%s|bs=4x4x256|rate=8|nb=2x2x1|%s' % (prop, ','.join('%s=%s' % kv for kv in sorted(o.items())))
-                it = _I(desc, (lambda o=o: numpy_item((4, 4, 256), 8, (2, 2, 1), {prop}, o)), timeout_s=250 if quick else 1200,
+                it = _I(desc, (lambda o=o: numpy_item((4, 4, 256), 8, (2, 2, 1), {prop}, o)), timeout_s=250 if quick else 600,
                         solver_ms=10000 if quick else 60000)
                 it.meta = dict(kind='numpy', bs=[4, 4, 256], rate=8, nb=[2, 2, 1], opts=dict(o), prop=prop)
                 items.append(it)
@@ -1056,12 +1063,12 @@ def items_for(prop, tier):
                     if call == 'tracefield-first':
                         o['field'] = 1      # the first field of the table: its array would be the first one in the footer
                     desc = 'crash|segy|%s' % ','.join('%s=%s' % kv for kv in sorted(o.items()))
-                    it = _I(desc, (lambda o=o: segy_item('regular', (4, 4, 256), 8, (1, 1, 1), {'C18'}, o)), timeout_s=250 if quick else 1500)
+                    it = _I(desc, (lambda o=o: segy_item('regular', (4, 4, 256), 8, (1, 1, 1), {'C18'}, o)), timeout_s=250 if quick else 600)
                     it.meta = dict(kind='segy-regular', bs=[4, 4, 256], rate=8, nb=[1, 1, 1], opts=dict(o), prop='C18')
                     items.append(it)
         for call in ('header', 'voxel', 'hash'):
             o = dict(call=call, granularity='write', headers=((73, 'i4'),))
-            it = _I('crash|numpy|call=%s' % call, (lambda o=o: numpy_item((4, 4, 256), 8, (1, 1, 1), {'C18'}, o)), timeout_s=250 if quick else 1500)
+            it = _I('crash|numpy|call=%s' % call, (lambda o=o: numpy_item((4, 4, 256), 8, (1, 1, 1), {'C18'}, o)), timeout_s=250 if quick else 600)
             it.meta = dict(kind='numpy', bs=[4, 4, 256], rate=8, nb=[1, 1, 1], opts=dict(o), prop='C18')
             items.append(it)
     if prop == 'C08':
@@ -1081,7 +1088,7 @@ def items_for(prop, tier):
             cfgs.append(((4, 4, 256), 8, (1, 1, 1), dict(part='traces', holes=1, il0=10, il_step=2, xl0=20, xl_step=3, ilxl=(3, 4), detection='thorough', dimcap=4)))
         for bs, rate, nb, o in cfgs:
             desc = 'segy-irregular|C08|bs=%s|nb=%s|%s' % ('x'.join(map(str, bs)), 'x'.join(map(str, nb)), ','.join('%s=%s' % kv for kv in sorted(o.items())))
-            it = _I(desc, (lambda bs=bs, rate=rate, nb=nb, o=o: segy_item('irregular', bs, rate, nb, {'C08'}, o)), timeout_s=250 if quick else 1500)
+            it = _I(desc, (lambda bs=bs, rate=rate, nb=nb, o=o: segy_item('irregular', bs, rate, nb, {'C08'}, o)), timeout_s=250 if quick else 600)
             it.meta = dict(kind='segy-irregular', bs=list(bs), rate=rate, nb=list(nb), opts=dict(o), prop='C08')
             items.append(it)
     if prop == 'C20':
@@ -1094,6 +1101,12 @@ def items_for(prop, tier):
                     (lambda kind=kind, bs=bs, nb=nb: segy_item(kind, bs, 8, nb, {'C20'}, dict(runs=2, fmt=1))), timeout_s=200)
             it.meta = dict(kind='segy-' + kind, bs=list(bs), rate=8, nb=list(nb), opts=dict(runs=2, fmt=1), prop='C20')
             items.append(it)
+    if prop == 'C03':
+        from .runner import Item as _I2
+        o = dict(headers=((181, 'i4'), (73, 'i8')), part='footer')      # header dict in non-ascending field order, mixed dtypes
+        it = _I2('numpy|C03|unsorted-headers|bs=4x4x256|nb=1x2x1|footer', (lambda o=o: numpy_item((4, 4, 256), 8, (1, 2, 1), {'C03'}, o)), timeout_s=200)
+        it.meta = dict(kind='numpy', bs=[4, 4, 256], rate=8, nb=[1, 2, 1], opts=dict(o), prop='C03')
+        items.append(it)
     if prop == 'C03':
         # the distribution version strings setuptools_scm can emit for this project (incl. the one installed here)
         for ver, tup in (('0.1.dev1+g45bcf9689', None), ('0.2.8', (0, 2, 8, True)), ('0.2.9.dev3+gabcdef0', (0, 2, 9, False)),
